@@ -9,8 +9,19 @@
    - slack); for the other kinds as a predicate [K_feasible cfg w eps] = every
    covered inequality holds up to eps, quantified over all rows / units / pairs.
    Comparisons are the code's: non-strict (>= -eps, <= eps) everywhere except the
-   Linear norm test (strict < eps) and the KFL sign / scale-range tests (no eps). *)
+   Linear norm test (strict < eps) and the KFL sign / scale-range tests (no eps).
+
+   Square roots: the model of the Linear L2 norm test compares the SUM OF
+   SQUARES with squared thresholds and contains no root, so C12_linear_exact /
+   _sound / _complete need none.  Only the two "meaning" theorems relate that
+   test to the code's comparison of r = tf.norm(...): C12_linear_l2_norm_meaning
+   and C12_linear_l2_zero_norm_meaning assume an EXACT root r * r == s
+   (idealised: satisfiable only when s is a rational square); the
+   ..._any_root versions hold for every r >= 0 (test on r == squared test on
+   r * r) and the ..._approximate_root versions for r * r within relative error
+   d of s (proofs in Proofs/SqrtRobust.v). *)
 From TFL Require Import Model.Asserts Proofs.Asserts.
+From TFL Require Proofs.SqrtRobust.
 Open Scope Q_scope.
 
 (* ---------------- Lattice (monotonicity, Edgeworth, trapezoid, monotonic and
@@ -155,6 +166,40 @@ Theorem C12_linear_l2_zero_norm_meaning : forall r s ne, 0 <= r -> r * r == s ->
   (qabs r < ne <-> s < ne * ne).
 Proof. exact l2_zero_meaning. Qed.
 Print Assumptions C12_linear_l2_zero_norm_meaning.
+
+(* without the exact-root idealisation: for EVERY r >= 0 the code's comparisons
+   of r are the squared comparisons of r * r ... *)
+Theorem C12_linear_l2_norm_meaning_any_root : forall r eps ne, 0 <= r -> 0 <= eps -> 0 < ne ->
+  (qabs (r - 1) < eps <-> r * r < (1 + eps) * (1 + eps) /\ (1 - eps < 0 \/ (1 - eps) * (1 - eps) < r * r)) /\
+  (qabs r < ne <-> r * r < ne * ne).
+Proof. intros r eps ne Hr He Hn.
+  exact (conj (SqrtRobust.l2_check_any_root r eps Hr He) (SqrtRobust.l2_zero_any_root r ne Hr Hn)). Qed.
+Print Assumptions C12_linear_l2_norm_meaning_any_root.
+
+(* ... and when r * r is within relative error d of the sum of squares s (what
+   tf.norm guarantees), the model's test on s and the code's test on r agree
+   unless s is within that relative error of a threshold: the model's test with
+   the margins (1 +- d) implies the code's, the code's implies the model's with
+   the margins relaxed *)
+Theorem C12_linear_l2_norm_meaning_approximate_root : forall r s eps d, 0 <= r -> 0 <= eps ->
+  (1 - d) * s <= r * r -> r * r <= (1 + d) * s ->
+  ((1 + d) * s < (1 + eps) * (1 + eps) /\ (1 - eps < 0 \/ (1 - eps) * (1 - eps) < (1 - d) * s) -> qabs (r - 1) < eps) /\
+  (qabs (r - 1) < eps -> (1 - d) * s < (1 + eps) * (1 + eps) /\ (1 - eps < 0 \/ (1 - eps) * (1 - eps) < (1 + d) * s)).
+Proof. exact SqrtRobust.l2_check_approx_root. Qed.
+Print Assumptions C12_linear_l2_norm_meaning_approximate_root.
+
+Theorem C12_linear_l2_zero_norm_meaning_approximate_root : forall r s ne d, 0 <= r -> 0 < ne ->
+  (1 - d) * s <= r * r -> r * r <= (1 + d) * s ->
+  ((1 + d) * s < ne * ne -> qabs r < ne) /\ (qabs r < ne -> (1 - d) * s < ne * ne).
+Proof. exact SqrtRobust.l2_zero_approx_root. Qed.
+Print Assumptions C12_linear_l2_zero_norm_meaning_approximate_root.
+
+(* satisfiable for the non-square s = 2 with r = 99/70, d = 1/9800, eps = 1/2 *)
+Example C12_l2_root_two_example :
+  let r := 99 # 70 in let d := 1 # 9800 in let eps := 1 # 2 in
+  0 <= r /\ 0 <= eps /\ (1 - d) * 2 <= r * r /\ r * r <= (1 + d) * 2 /\ ~ r * r == 2 /\
+  (1 + d) * 2 < (1 + eps) * (1 + eps) /\ (1 - eps) * (1 - eps) < (1 - d) * 2 /\ qabs (r - 1) < eps.
+Proof. exact SqrtRobust.l2_check_root_two. Qed.
 
 (* ---------------- Categorical (bounds, ordering pairs) ---------------- *)
 Theorem C12_categorical_exact : forall c K eps, K <> [] -> (1 <= ca_units c)%nat -> 0 <= eps ->
